@@ -58,7 +58,8 @@ Qed.
 Lemma sstat_end_data cfg b cls : sstat (b_st b) -> sstat (b_st (end_data cfg b cls)).
 Proof.
   intros H. unfold end_data. destruct (b_data b) as [|c cs]; [exact H|].
-  set (k := KStr _). set (text := match b_pws b with [] => _ | _ => _ end).
+  cbv zeta. set (k := KStr _). unfold alloc.
+  match goal with |- context [blank k ?t] => set (text := t) end.
   pose proof (sstat_alloc (b_st b) k text H) as Ha.
   unfold alloc in *. cbn [fst] in Ha. unfold object_was_parsed.
   cbn [b_cur b_st b_mre b_pay b_stack b_counter b_pws b_scs b_data].
